@@ -159,6 +159,24 @@ def uniquify (rule : Rule) (t : Rat) (points : List Pt) : Result :=
     new2old := ordering.map (·.2.1),
     old2new := (List.range points.length).map (fun i => lookup ((assoc r.2 i).getD 0)) }
 
+/-! ### specification vocabulary -/
+
+/-- The separation hypothesis of the property: `cl i` is the cluster of point `i`, and two points
+    are closer than `tol` exactly when they belong to the same cluster.  (Implied by "cluster
+    diameter < ε·tol with ε ≤ 1, different clusters farther apart than tol", see
+    `separated_of_margins`.) -/
+def Separated (t : Rat) (points : List Pt) (cl : Nat → Nat) : Prop :=
+  ∀ i j p q, points[i]? = some p → points[j]? = some q → (cl i = cl j ↔ dist2 p q < t * t)
+
+/-- decidable form of `Separated` for a list of labels (used for concrete witnesses) -/
+def separatedB (t : Rat) (points : List Pt) (labels : List Nat) : Bool :=
+  (enumFrom 0 points).all (fun x => (enumFrom 0 points).all (fun y =>
+    decide (labels.getD x.1 0 = labels.getD y.1 0) == decide (dist2 x.2 y.2 < t * t)))
+
+/-- indices, ascending, of the first-occurring member of every cluster among points `0..n-1` -/
+def firsts (cl : Nat → Nat) (n : Nat) : List Nat :=
+  (List.range n).filter (fun i => (List.range i).all (fun j => cl j != cl i))
+
 /-! ### `fracs.utils.uniquify_points` (edges are columns `[start, end, tags…]`) -/
 
 def mapEdge (o2n : List Nat) (e : List Nat) : List Nat :=
